@@ -134,6 +134,29 @@ def generate(ctx):
                     assert back.chunked_array.to_pylist() == want and back.dtype == arr.dtype
                     twice = NEA(back.chunked_list_struct_array)
                     assert twice.chunked_array.to_pylist() == want
+                    # a list-of-structs selection that selects NO row has no chunk at all: still the (empty) column of that dtype
+                    lst = transpose_struct_list_type(st)
+                    for what, empty_ls in (("no chunks", pa.chunked_array([], type=lst)),
+                                           ("filter selecting nothing", arr.chunked_list_struct_array.filter(pa.array([False] * len(arr), type=pa.bool_())))):
+                        e = NEA(empty_ls)
+                        assert len(e) == 0 and e.dtype == arr.dtype, f"import of a list-struct array with {what}: {e.dtype}"
+                        e2 = NEA.from_arrow_ext_array(pd.arrays.ArrowExtensionArray(empty_ls))
+                        assert len(e2) == 0 and e2.dtype == arr.dtype
+                    # a list-of-structs array offered WITH an explicit type request: honoured (the dtype asked for, the values cast)
+                    # or refused - never accepted and ignored
+                    ints = [f.name for f in st if f.type.value_type == pa.int64()]
+                    if ints:
+                        wide_struct = pa.struct([pa.field(f.name, pa.list_(pa.float64()) if f.name in ints else f.type) for f in st])
+                        wide_list = transpose_struct_list_type(wide_struct)
+                        ls_now = arr.chunked_list_struct_array
+                        casted = attempt(lambda: inp["ca"].cast(wide_struct).to_pylist())
+                        for what, fn in (("from_sequence(list-struct, dtype=list-struct type)", lambda: NEA.from_sequence(ls_now, dtype=wide_list)),
+                                         ("from_sequence(list-struct, dtype=ArrowDtype)", lambda: NEA.from_sequence(ls_now, dtype=pd.ArrowDtype(wide_list))),
+                                         ("Series(list-struct, dtype=NestedDtype)", lambda: pd.Series(pd.arrays.ArrowExtensionArray(ls_now), dtype=NestedDtype(wide_struct)).array)):
+                            r_ = attempt(fn)
+                            if r_[0] == "ok":
+                                assert r_[1].dtype == NestedDtype(wide_struct), f"{what}: accepted but the column is {r_[1].dtype}"
+                                assert casted[0] == "ok" and repr(r_[1].chunked_array.to_pylist()) == repr(casted[1]), f"{what}: values differ from the cast"
                 elif which == "astype":
                     s2 = s.astype(pd.ArrowDtype(st))
                     assert s2.array._pa_array.to_pylist() == want and s2.dtype == pd.ArrowDtype(st)
